@@ -151,7 +151,11 @@ void
 mudlib_logon (object_t * ob)
 {
   /* current_object no longer set */
-  apply (APPLY_LOGON, ob, 0, ORIGIN_DRIVER);
+  /* logon() runs under its own recovery point, like connect() and net_dead(): it is applied from inside
+   * process_io(), and an uncaught error that unwound to backend() abandoned the remaining events of that poll
+   * round. Socket events are reported again, but a console completion is not: the console line stayed in its
+   * queue until the next line was typed. The error is reported as usual; the connection is kept. */
+  safe_apply (APPLY_LOGON, ob, 0, ORIGIN_DRIVER);
   /* function not existing is no longer fatal */
 }
 
